@@ -39,6 +39,7 @@ class Product:
         self.payoff = payoff
         self.maturity = maturity
         self.notional = notional
+        self._log_representation = False
 
     def underlying_value(
         self, times: TimeGrid, path: np.array, jump_path: np.array
@@ -53,7 +54,8 @@ class Product:
         underlying = self.payoff_underlying.value(
             times=times, path=path, jump_path=jump_path
         )
-        self.payoff.process(times, path)
+        # path-dependent payoffs (barrier) are expressed in terms of the underlying, not of its logarithm
+        self.payoff.process(times, np.exp(path) if self._log_representation else path)
         return underlying
 
     def update(self, process_representation: ProcessRepresentation) -> None:
@@ -63,6 +65,7 @@ class Product:
                                        underlying or the log-underlying
         """
         self.payoff_underlying.update(process_representation)
+        self._log_representation = process_representation == ProcessRepresentation.LOG
 
     def __call__(self, underlying) -> float:
         """Applies the underlying value to the payoff product.
